@@ -47,7 +47,7 @@ RULE = ("Hypothesis-generated (resource size, chunk size, keep_chunks, history o
         "on a chunk boundary; a dataset case is non-trivial when the HTTP file object "
         "evicted at least one chunk while the dataset was read; distinct = sha1 of the "
         "canonical JSON spec")
-BUDGET = {"quick": 480, "thorough": 9000}
+BUDGET = {"quick": 1200, "thorough": 12000}
 ESSENTIAL = ["kind:bytes", "kind:ds", "read:within-chunk", "read:multi-chunk",
              "read:ends-on-boundary", "read:ends-at-eof", "read:crossing-eof",
              "read:zero", "seek:set", "seek:cur", "seek:end", "evict",
